@@ -2,8 +2,8 @@
   C03 — the emitter: what `Http1Server`, `Http1Client`, `HttpLayer` and the proxy server can deliver to ONE
   `HttpStream`, as a closed loop with the stream model (the emitter sees what the stream emitted).
 
-  * request side (Http1Server for this stream id): `RequestHeaders` once; then `RequestData`* and
-    `RequestEndOfMessage` while the body is being read; `RequestProtocolError` at any time after the headers (bad
+  * request side (Http1Server / Http2Server for this stream id): `RequestHeaders` once; then `RequestData`*,
+    (HTTP/2: `RequestTrailers`) and `RequestEndOfMessage` while the body is being read; `RequestProtocolError` at any time after the headers (bad
     body → the connection is closed; disconnect while waiting; the closed connection reporting EOF again) — and after
     a protocol error nothing but further protocol errors.
   * response side (Http1Client of the connection the request went to): any response event, but only once the stream
@@ -19,7 +19,7 @@ inductive RqPhase where
   deriving DecidableEq, Repr, Inhabited
 
 def Ev.isReqPart : Ev → Bool
-  | .reqHeaders .. | .reqData _ | .reqEOM => true
+  | .reqHeaders .. | .reqData _ | .reqEOM | .reqTrailers => true
   | _ => false
 
 def Ev.isReqHeaders : Ev → Bool
@@ -27,15 +27,15 @@ def Ev.isReqHeaders : Ev → Bool
   | _ => false
 
 def Ev.isResp : Ev → Bool
-  | .respHeaders .. | .respData _ | .respEOM | .respErr => true
+  | .respHeaders .. | .respData _ | .respEOM | .respTrailers | .respErr => true
   | _ => false
 
 /-- may the environment deliver `ev` now? -/
 def enabled (s : St) (rq : RqPhase) : Ev → Bool
   | .reqHeaders .. => rq == .none
-  | .reqData _ | .reqEOM => rq == .body
+  | .reqData _ | .reqEOM | .reqTrailers => rq == .body
   | .reqErr => rq != .none
-  | .respHeaders .. | .respData _ | .respEOM | .respErr => s.core.attached
+  | .respHeaders .. | .respData _ | .respEOM | .respTrailers | .respErr => s.core.attached
   | .hookDone h _ => match s.core.paused with
     | some k => k.hook == some h
     | none => false
